@@ -16,6 +16,7 @@ import (
 	"flag"
 	"fmt"
 	"os"
+	"runtime"
 	"sync"
 	"time"
 
@@ -240,6 +241,111 @@ func run(t *wirecodec.Table, v *vec, o *out) {
 	cc.Close()
 }
 
+// tagExhaustion: more calls in flight than there are tags (FidPool.tla TagSpace: 1..0xFFFE).  The scripted
+// server answers nothing until every request that can be sent has arrived.  The tags on the wire are
+// pairwise distinct and never NOTAG; the calls that found no tag return an error (they do not wait, and they do
+// not borrow a tag that is outstanding); then everything is answered and every call returns.
+func tagExhaustion(t *wirecodec.Table, o *out) {
+	o.Cases++
+	const extra = 3
+	total := 0xFFFE + extra
+	toSrv, toCli := peer.NewPipe(), peer.NewPipe()
+	cc := &conn{r: toCli, w: toSrv}
+	fr := peer.NewFrameReader(peer.ReadEnd{P: toSrv})
+	var mu sync.Mutex
+	seenTags := map[uint16]int{}
+	var order []uint16
+	problems := []string{}
+	arrived := make(chan struct{}, 1<<17)
+	go func() {
+		for b := range fr.C {
+			f, err := t.Decode(b)
+			if err != nil {
+				continue
+			}
+			switch f.Name {
+			case "Tversion":
+				toCli.Write(t.Encode("Rversion", f.Tag, wirecodec.Values{"msize": wirecodec.U(f.V, "msize"), "version": f.V["version"]}))
+			case "Tattach":
+				toCli.Write(t.Encode("Rattach", f.Tag, wirecodec.Values{"qid": wirecodec.Values{"type": 0x80, "path": 1}}))
+			case "Tfsync":
+				mu.Lock()
+				if f.Tag == 0xFFFF && len(problems) < 5 {
+					problems = append(problems, "a request was sent with NOTAG (0xFFFF)")
+				}
+				if seenTags[f.Tag] > 0 && len(problems) < 5 {
+					problems = append(problems, fmt.Sprintf("tag %d was given to a second request while the first is outstanding", f.Tag))
+				}
+				seenTags[f.Tag]++
+				order = append(order, f.Tag)
+				mu.Unlock()
+				arrived <- struct{}{}
+			}
+		}
+	}()
+	cl, err := p9.NewClient(cc)
+	if err != nil {
+		o.Findings = append(o.Findings, finding{Step: -1, Detail: "tag exhaustion: NewClient: " + err.Error()})
+		return
+	}
+	root, err := cl.Attach("")
+	if err != nil {
+		o.Findings = append(o.Findings, finding{Step: -1, Detail: "tag exhaustion: attach: " + err.Error()})
+		return
+	}
+	results := make(chan error, total)
+	for i := 0; i < total; i++ {
+		go func() { results <- root.FSync() }()
+	}
+	// all requests that found a tag arrive; the others return an error
+	nArrived, nErr := 0, 0
+	deadline := time.After(60 * time.Second)
+collect:
+	for nArrived+nErr < total {
+		select {
+		case <-arrived:
+			nArrived++
+		case e := <-results:
+			if e == nil {
+				problems = append(problems, "a call returned success before anything was answered")
+			}
+			nErr++
+		case <-deadline:
+			problems = append(problems, fmt.Sprintf("after 60 s: %d requests on the wire, %d calls returned, %d calls neither sent nor returned", nArrived, nErr, total-nArrived-nErr))
+			break collect
+		}
+	}
+	mu.Lock()
+	if nArrived > 0xFFFE && len(problems) < 5 {
+		problems = append(problems, fmt.Sprintf("%d requests are outstanding at once; there are only %d tags", nArrived, 0xFFFE))
+	}
+	toAnswer := append([]uint16{}, order...)
+	mu.Unlock()
+	// answer a thousand of them (newest first), then end the connection: every call returns
+	for i := len(toAnswer) - 1; i >= 0 && i >= len(toAnswer)-1000; i-- {
+		toCli.Write(t.Encode("Rfsync", toAnswer[i], wirecodec.Values{}))
+	}
+	time.Sleep(50 * time.Millisecond)
+	toCli.CloseWrite()
+	back := nErr
+	dl2 := time.After(60 * time.Second)
+wait2:
+	for back < total {
+		select {
+		case <-results:
+			back++
+		case <-dl2:
+			problems = append(problems, fmt.Sprintf("%d of %d calls never returned although their requests were answered or the connection ended", total-back, total))
+			break wait2
+		}
+	}
+	for _, p := range problems {
+		o.Findings = append(o.Findings, finding{Step: -1, Detail: fmt.Sprintf("tag exhaustion (%d concurrent calls): %s", total, p)})
+	}
+	runtime.KeepAlive(root)
+	cc.Close()
+}
+
 func main() {
 	in := flag.String("in", "", "")
 	outp := flag.String("out", "", "")
@@ -253,6 +359,9 @@ func main() {
 	}
 	t := wirecodec.MustLoad()
 	o := &out{}
+	if *shard == 0 {
+		tagExhaustion(t, o)
+	}
 	sc := bufio.NewScanner(f)
 	sc.Buffer(make([]byte, 1<<20), 16<<20)
 	i := 0
